@@ -3,31 +3,8 @@
 // directly, exactly as the I/O thread would.  Inputs (from the SEARCH harness):  MAX = config.maxSyncReceiveBuffer,
 // CH = chunk lengths (one byte each), CH_N = number of chunks.  Oracle = property C03: what the synchronous reader obtains is a
 // gap-free prefix of the byte stream that arrived, and if anything was dropped the reader gets BufferOverflow (not a silent gap).
-#include "iora/network/transport_impl.hpp"
+#include "scripted_engine.h"
 #include "replay_io.h"
-using namespace iora::network;
-struct ScriptedEngine : detail::EngineBase {
-  Callbacks cbs; SessionId next = 1; std::vector<SessionId> closed;
-  StartResult start() override { return StartResult::ok(); }
-  void stop() override {}
-  bool isRunning() const override { return false; }
-  TransportErrorInfo lastError() const override { return {}; }
-  ListenResult addListener(const std::string &, std::uint16_t, TlsMode) override { return ListenResult::ok(1); }
-  ConnectResult connect(const std::string &, std::uint16_t, TlsMode) override { return ConnectResult::ok(next++); }
-  ConnectResult connectViaListener(ListenerId, const std::string &, std::uint16_t) override { return ConnectResult::ok(next++); }
-  bool close(SessionId s) override { closed.push_back(s); return true; }
-  bool send(SessionId, const void *, std::size_t) override { return true; }
-  void sendAsync(SessionId, const void *, std::size_t, SendCompleteCallback) override {}
-  void setCallbacks(Callbacks c) override { cbs = std::move(c); }
-  TransportStats getStats() const override { return {}; }
-  TransportAddress getListenerAddress(ListenerId) const override { return {}; }
-  TransportAddress getLocalAddress(SessionId) const override { return {}; }
-  TransportAddress getRemoteAddress(SessionId) const override { return {}; }
-  bool setDscp(SessionId, std::uint8_t) override { return true; }
-  std::thread::id getIoThreadId() const override { return {}; }
-  void detachForTermination() override {}
-  void scheduleSelfDestruct(std::function<void()>) override {}
-};
 int main(int argc, char **argv) {
   auto in = replay_io::load(argv[1]);
   std::vector<uint8_t> ch = replay_io::bytes(in["CH"]);
